@@ -325,7 +325,7 @@ def spec(depth):
     allops = OPS.all_ops()
     last = [o for o in allops if o[0] in REORDER_OPS]
     return E.Spec(OPS.start_tables(), allops, depth, check_ops=REORDER_OPS, last_level_ops=last,
-                  label='histories-d%d' % depth)
+                  label='histories-d%d' % depth, by_id=True)
 
 
 def run(run):
